@@ -3,6 +3,7 @@ import Driver.ExcDrv
 import Driver.IdxDrv
 import Driver.VmDrv
 import Driver.FfiDrv
+import Driver.LedgerDrv
 
 def main (args : List String) : IO UInt32 := do
   match args with
@@ -11,4 +12,5 @@ def main (args : List String) : IO UInt32 := do
   | ["idx"] => IdxDrv.main; return 0
   | "vm" :: rest => VmDrv.main rest
   | ["ffi"] => FfiDrv.main; return 0
+  | ["ledger"] => LedgerDrv.main; return 0
   | _ => IO.eprintln "usage: nmdrv gc|..."; return 2
